@@ -118,12 +118,42 @@ func (s *stallFs) OpenFile(name string, flag int, perm os.FileMode) (afero.File,
 //	       config): e = empty, s = 3 old lines, l = more old lines than this run can write,
 //	       m = like l but ending in the middle of a line, g = 10 kB of bytes that are not lines.
 //	       After Run the destination must consist of exactly this run's lines.
+//	       x<hex> (only with a stream destination): the bytes the stream holds before the aggregator is built.
+//	dest   (optional, default file) where the results go:
+//	       file    a named file on the (memory) file system: Destination / sink: file
+//	       stdout  the process' standard output: phout WITHOUT a destination (the zero value of the
+//	               config, DefaultPhoutConfig), datasink.NewStdout() for the encoder aggregators
+//	       stderr  datasink.NewStderr() (encoder aggregators only)
+//	       For the stream destinations os.Stdout / os.Stderr point to a scratch file while the
+//	       aggregator is built (the constructors read the variable once); after Run the stream must
+//	       hold what it held before followed by exactly this run's lines.
 //
 // observation:  <err> <order> <payload>
 //
 //	err      nil | dropped:<n> | other | hang | panic
 //	order    ids of the Reports in completion order (pre, ser) or "-" (free)
 //	payload  hex:<destination bytes>  (phout, phoutid, tab)  |  ids:<id,...>;bad=<n>  (json: every line parsed with encoding/json)
+//	         json on a stream: the payload describes the bytes after the first len(old) ones, and a
+//	         fourth field head:<hex> gives those first bytes (judged by the model's this_run)
+var stdMu sync.Mutex // os.Stdout / os.Stderr are swapped only under this lock
+
+// withStd runs build() while os.Stdout (or os.Stderr) is the given file.
+func withStd(dest string, stream *os.File, build func()) {
+	stdMu.Lock()
+	defer stdMu.Unlock()
+	switch dest {
+	case "stdout":
+		old := os.Stdout
+		os.Stdout = stream
+		defer func() { os.Stdout = old }()
+	case "stderr":
+		old := os.Stderr
+		os.Stderr = stream
+		defer func() { os.Stderr = old }()
+	}
+	build()
+}
+
 func runAggr(f []string) (obs string) {
 	defer func() {
 		if r := recover(); r != nil {
@@ -143,7 +173,27 @@ func runAggr(f []string) (obs string) {
 
 	var fs afero.Fs = afero.NewMemMapFs()
 	hangAfter := 5 * time.Second
-	if len(f) > 10 {
+	dest := "file"
+	if len(f) > 11 {
+		dest = f[11]
+	}
+	var stream *os.File
+	var oldStream []byte
+	if dest != "file" {
+		if (dest != "stdout" && dest != "stderr") || len(f[10]) < 2 || f[10][0] != 'x' {
+			return "other - unknown-dest"
+		}
+		var err error
+		oldStream = vh.UnHex(f[10][1:])
+		if stream, err = os.CreateTemp("", "hC06-stream-*"); err != nil {
+			return "other - setup"
+		}
+		defer os.Remove(stream.Name())
+		defer stream.Close()
+		if _, err = stream.Write(oldStream); err != nil {
+			return "other - setup"
+		}
+	} else if len(f) > 10 {
 		if err := afero.WriteFile(fs, "out", oldContent(f[10], format, g*per), 0o644); err != nil {
 			return "other - setup"
 		}
@@ -157,12 +207,33 @@ func runAggr(f []string) (obs string) {
 	var run func(ctx context.Context) error
 	var report reporter
 	deps := core.AggregatorDeps{Log: zap.NewNop()}
+	var sink core.DataSink
+	withStd(dest, stream, func() {
+		switch dest {
+		case "file":
+			sink = datasink.NewFile(fs, datasink.FileConfig{Path: "out"})
+		case "stdout":
+			sink = datasink.NewStdout()
+		case "stderr":
+			sink = datasink.NewStderr()
+		}
+	})
 	switch format {
 	case "phout", "phoutid":
-		a, err := netsample.NewPhout(fs, netsample.PhoutConfig{
+		conf := netsample.PhoutConfig{
 			Destination: "out", ID: format == "phoutid", SampleQueueSize: q,
 			Buffer: coreutil.BufferSizeConfig{BufferSize: datasize.ByteSize(bufsize)},
-		})
+		}
+		switch dest {
+		case "file":
+		case "stdout":
+			conf.Destination = "" // no destination: results go to standard output
+		default:
+			return "other - unknown-dest"
+		}
+		var a netsample.Aggregator
+		var err error
+		withStd(dest, stream, func() { a, err = netsample.NewPhout(fs, conf) })
 		if err != nil {
 			return "other - open:" + err.Error()
 		}
@@ -170,7 +241,7 @@ func runAggr(f []string) (obs string) {
 		report = func(id uint64) { a.Report(mkSample(id)) }
 	case "json":
 		conf := aggregator.DefaultJSONLinesAggregatorConfig()
-		conf.Sink = datasink.NewFile(fs, datasink.FileConfig{Path: "out"})
+		conf.Sink = sink
 		conf.ReporterConfig.SampleQueueSize = q
 		conf.FlushInterval = time.Duration(1+rnd.Intn(3)) * time.Millisecond
 		conf.JSONLineEncoderConfig.BufferSizeConfig.BufferSize = datasize.ByteSize(bufsize)
@@ -179,7 +250,7 @@ func runAggr(f []string) (obs string) {
 		report = func(id uint64) { a.Report(mkJSONSample(id)) }
 	case "tab":
 		conf := aggregator.DefaultEncoderAggregatorConfig()
-		conf.Sink = datasink.NewFile(fs, datasink.FileConfig{Path: "out"})
+		conf.Sink = sink
 		conf.ReporterConfig.SampleQueueSize = q
 		conf.FlushInterval = time.Duration(rnd.Intn(3)) * time.Millisecond // 0 = no periodic flush
 		a := aggregator.NewEncoderAggregator(func(w io.Writer, onFlush func()) aggregator.SampleEncoder {
@@ -295,9 +366,22 @@ func runAggr(f []string) (obs string) {
 		}
 		orderField = sb.String()
 	}
-	data, rerr := afero.ReadFile(fs, "out")
+	var data []byte
+	var rerr error
+	if stream != nil {
+		data, rerr = os.ReadFile(stream.Name())
+	} else {
+		data, rerr = afero.ReadFile(fs, "out")
+	}
 	if rerr != nil {
 		return errField + " " + orderField + " unreadable"
+	}
+	if stream != nil && format == "json" {
+		n := len(oldStream)
+		if n > len(data) {
+			n = len(data)
+		}
+		return fmt.Sprintf("%s %s %s head:%s", errField, orderField, jsonPayload(data[n:]), vh.Hex(data[:n]))
 	}
 	if format != "json" {
 		return errField + " " + orderField + " hex:" + vh.Hex(data)
@@ -408,6 +492,47 @@ func genAggr(r *vh.Rand, tier string) []string {
 			c += " 0 " + r.Pick([]string{"e", "s", "l", "l", "m", "m", "g"})
 		}
 		out = append(out, c)
+	}
+	// the results go to a stream the process shares (standard output / standard error): phout without a
+	// destination, sink: stdout / stderr. The stream may hold earlier output.
+	ns := 24
+	if tier == "thorough" {
+		ns = 400
+	}
+	for i := 0; i < ns; i++ {
+		format := formats[i%4]
+		dest := "stdout"
+		if (format == "json" || format == "tab") && r.Chance(1, 3) {
+			dest = "stderr"
+		}
+		q := r.Range(1, 64)
+		g := r.Range(1, 8)
+		per := r.Range(0, 60)
+		mode := r.Pick([]string{"pre", "ser", "ser", "free"})
+		delay := r.PickInt([]int{0, 0, 0, 1, 3})
+		if mode == "pre" {
+			if format == "phout" || format == "phoutid" {
+				for g*per > q {
+					if per > 0 {
+						per--
+					}
+					if g*per > q && g > 1 {
+						g--
+					}
+				}
+			}
+			delay = r.PickInt([]int{-1, 0, 2, 5, 10})
+		}
+		bufsize := r.PickInt([]int{0, 1, 4096, 4097, 5000, 65536})
+		var old []byte
+		switch r.Intn(4) {
+		case 0: // nothing was written to the stream before
+		case 1, 2: // earlier result lines (another pool, an earlier run appended to the same log)
+			old = oldContent("s", format, 0)
+		case 3: // earlier output that is not a line of the format, not even LF-terminated
+			old = []byte("pandora: results follow")
+		}
+		out = append(out, fmt.Sprintf("aggr %s %d %d %d %s %d %d %d 0 x%s %s", format, q, g, per, mode, delay, bufsize, r.U64()%1000000, vh.Hex(old), dest))
 	}
 	// a stalling destination: the queue is full for seconds; a blocking Report must keep waiting,
 	// a dropping one must count. (Run concurrently, so the wall time is that of the longest stall.)
